@@ -163,8 +163,13 @@ def run(ctx):
     ef = mp.func('_empymod_fwd')
     ep = au.params(ef)
     sh, sv = sp.symbols('sh sv', positive=True)
+    call0 = au.calls(ef, 'bipole')
+    ctx.anchor(len(call0) == 1, 'bipole call in _empymod_fwd')
+    akw = [k.value for k in call0[0].keywords if k.arg == 'aniso']
+    ctx.anchor(len(akw) == 1 and isinstance(akw[0], ast.Name),
+               'aniso keyword of bipole')
     an = [n for n in ast.walk(ef) if isinstance(n, ast.Assign) and
-          ast.unparse(n.targets[0]) == 'aniso']
+          ast.unparse(n.targets[0]) == akw[0].id]
     ctx.anchor(len(an) == 1 and isinstance(an[0].value, ast.IfExp),
                'anisotropy in _empymod_fwd')
     lf = Lifter({ep[0]: sh, ep[1]: sv}, {}, mp.rel, strict=True)
@@ -181,7 +186,7 @@ def run(ctx):
     res = lf.lift(kws['res']) if 'res' in kws else None
     ctx.check('C19.L3.empymod', '_empymod_fwd: res = 1/sigma_h',
               res is not None and equal(res, 1 / sh) and
-              ast.unparse(kws.get('aniso')) == 'aniso',
+              ast.unparse(kws.get('aniso')) == akw[0].id,
               f'resistivity handed to empymod is {res}', ctx.where(mp, ef),
               sample={'lifted': str(res)})
     # L4
